@@ -311,6 +311,11 @@ func pinnedCases() []pinned {
 			Messages: []*schema.Message{{Name: "Address", Fields: []*schema.Field{fld("city", 1, schema.KString, schema.Singular)}}}})
 		resp4.Fields = append(resp4.Fields, &schema.Field{Name: "home", Number: 2, Kind: schema.KMessage, TypeRef: "p0052.ext.Address", Card: schema.Singular, Ann: &schema.Ann{Flatten: true}})
 		goCase("C13", "C13/flatten_child_from_other_package.json", "server", "", s4)
+		s5, _, _, _, _ := baseSchema("p0053")
+		s5.Files = append(s5.Files, &schema.File{Name: "p0053/second_service.proto", Generate: true,
+			Messages: []*schema.Message{{Name: "PingRequest"}, {Name: "PingResponse", Fields: []*schema.Field{fld("ok", 1, schema.KBool, schema.Singular)}}},
+			Services: []*schema.Service{{Name: "OtherService", Methods: []*schema.Method{{Name: "Ping", Input: s5.Pkg + ".PingRequest", Output: s5.Pkg + ".PingResponse", HasConfig: true, Path: "/ping", Verb: 2}}}}})
+		goCase("C13", "C13/two_service_files_in_one_package.json", "both", "", s5)
 	}
 	{
 		// two RPCs without an explicit path under a base_path: both are published at the base path
